@@ -885,6 +885,10 @@ def run(tier):
         'data fits the node (no more elements / sub-elements than the node defines, one value in a simple element): otherwise C07 (D18)',
         'xml.etree is trusted to invert well-formed serialisation',
     ]
+    if built:
+        # sinks end to end: the XML (byte for byte) and HTML of the real x12n_document against Model/DocSinks.lean
+        from . import doc as docmod, docsinks
+        docsinks.attach(res, [t for _, t in docmod.small_corpus(seed * 3 + 8, 60 if tier == 'thorough' else 24)], 'c08-sample')
     return res.finish(trusted=common.TRUSTED_COMMON + [
         'modelled: XMLWriter.push/elem/pop/_escape_*/_indent, x12xml._path_list/_get_path_match_idx, x12xml_simple.__init__/seg/__del__, '
         'xmlx12_simple.convert/get_segment, Segment.set/get/format; not modelled: X12Writer (trailers are regenerated by it; oracle only), '
